@@ -38,7 +38,8 @@ def run(chk, repo, tier):
     chk.clause('C15-b', 'one value per wavelength: wave and value are updated together with twin right-hand sides', 6)
     chk.clause('C15-c', 'retained samples are not altered: selections / stacking of the original arrays only', 5)
     chk.clause('C15-d', 'closed ranges: crop keeps min <= w <= max, integrate selects start <= w <= end, trim keeps first..last', 5)
-    chk.clause('C15-e', 'bin: one value per centre; power preservation multiplies all bins by one common factor; edges keep their fractions', 4)
+    chk.clause('C15-e', 'bin: one value per centre; power preservation multiplies all bins by one common factor', 3)
+    chk.clause('C15-g', 'bin edges keep their fractional part whatever the element type of the requested centres', 2)
     chk.clause('C15-f', 'quadrature terms are the textbook trapezoid and Simpson terms over consecutive edges', 4)
     chk.not_decided += ['linearity, additivity, exactness of the quadratures', 'positivity of Simpson weights']
 
@@ -324,7 +325,7 @@ def run(chk, repo, tier):
                tri(okl), '; '.join(und), fb.loc())
         chk.ob('C15-e', 'N-identity', fb.key, f'power preservation rescales all bins by integrate(min, max)/sum(bins) [{label}]',
                tri(okp), '; '.join(und), fb.loc())
-    edge_grid_dtype_rule(chk, repo, fb, 'C15-e')
+    edge_grid_dtype_rule(chk, repo, fb, 'C15-g')
     # bin edges: midpoints between centres; end treatment symmetric (half a step outwards) or inside (the end centres)
     wv = S('wave')
     dx = nf.app('diff', wv) / 2
